@@ -28,10 +28,18 @@ type diagRec struct {
 	Incons     [][]int `json:"incons"`
 	Orientable bool    `json:"orientable"`
 	Panic      string  `json:"panic"`
+	// FaceOrientations: groups of face indices (1-based, as in F) with their flags; its own panic (the call
+	// is documented for orientable manifolds only - DiagJudge decides whether F is one)
+	FoGroups [][]int  `json:"fogroups"`
+	FoFlags  [][]bool `json:"foflags"`
+	FoPanic  string   `json:"fopanic"`
 }
 
 func diagRun(id int, faces [][]int, indexFirst bool) diagRec {
-	rec := diagRec{ID: id, Kind: "diag", Site: "model3d.Mesh", F: faces, Sing: []int{}, Incons: [][]int{}}
+	rec := diagRec{ID: id, Kind: "diag", Site: "model3d.Mesh", F: faces, Sing: []int{}, Incons: [][]int{},
+		FoGroups: [][]int{}, FoFlags: [][]bool{}}
+	var mesh *model3d.Mesh
+	faceOf := map[*model3d.Triangle]int{}
 	name := map[model3d.Coord3D]int{}
 	for i, p := range genericPts {
 		name[p] = i + 1
@@ -41,9 +49,12 @@ func diagRun(id int, faces [][]int, indexFirst bool) diagRec {
 		if indexFirst {
 			m.VertexSlice() // build the lazy index before the faces are added
 		}
-		for _, f := range faces {
-			m.Add(&model3d.Triangle{genericPts[f[0]-1], genericPts[f[1]-1], genericPts[f[2]-1]})
+		for i, f := range faces {
+			t := &model3d.Triangle{genericPts[f[0]-1], genericPts[f[1]-1], genericPts[f[2]-1]}
+			faceOf[t] = i + 1
+			m.Add(t)
 		}
+		mesh = m
 		rec.Needs = m.NeedsRepair()
 		for _, v := range m.SingularVertices() {
 			rec.Sing = append(rec.Sing, name[v])
@@ -54,6 +65,61 @@ func diagRun(id int, faces [][]int, indexFirst bool) diagRec {
 		}
 		rec.Orientable = m.Orientable()
 	})
+	if rec.Panic == "" {
+		rec.FoPanic = protect(func() {
+			for _, g := range mesh.FaceOrientations() {
+				idx := []int{}
+				for t := range g {
+					idx = append(idx, faceOf[t])
+				}
+				sort.Ints(idx)
+				flags := make([]bool, len(idx))
+				for t, fl := range g {
+					flags[sort.SearchInts(idx, faceOf[t])] = fl
+				}
+				rec.FoGroups = append(rec.FoGroups, idx)
+				rec.FoFlags = append(rec.FoFlags, flags)
+			}
+		})
+		if rec.FoPanic != "" {
+			rec.FoGroups, rec.FoFlags = [][]int{}, [][]bool{}
+		}
+	}
+	return rec
+}
+
+// ---------------------------------------------------------------- dual contouring repair (ptrCoord.Clusters)
+
+type dcRepairRec struct {
+	ID     int     `json:"id"`
+	Kind   string  `json:"kind"`
+	Site   string  `json:"site"`
+	Cells  []int   `json:"cells"`
+	F      [][]int `json:"F"`
+	Sing0  int     `json:"sing0"`
+	Needs0 bool    `json:"needs0"`
+	Panic  string  `json:"panic"`
+}
+
+// dcRepairRun: unit voxels of a 2x2x2 block (cell k = bits x, y, z of k-1) contoured on the half-unit grid
+func dcRepairRun(id int, cells []int) dcRepairRec {
+	rec := dcRepairRec{ID: id, Kind: "dcrepair", Site: "model3d.DualContouring(Repair)", Cells: cells, F: [][]int{}}
+	var solid model3d.JoinedSolid
+	for _, c := range cells {
+		k := c - 1
+		lo := model3d.XYZ(float64(k&1), float64(k>>1&1), float64(k>>2&1))
+		solid = append(solid, model3d.NewRect(lo, lo.Add(model3d.Ones(1))))
+	}
+	outcome, pan := withDeadline(20*time.Second, func() {
+		plain := (&model3d.DualContouring{S: model3d.SolidSurfaceEstimator{Solid: solid}, Delta: 0.5, Clip: true}).Mesh()
+		rec.Sing0, rec.Needs0 = len(plain.SingularVertices()), plain.NeedsRepair()
+		m := (&model3d.DualContouring{S: model3d.SolidSurfaceEstimator{Solid: solid}, Delta: 0.5, Clip: true, Repair: true}).Mesh()
+		rec.F = complex3(m, map[model3d.Coord3D]int{})
+	})
+	if outcome != "ok" {
+		rec.Panic = outcome + " " + pan
+		rec.F = [][]int{}
+	}
 	return rec
 }
 
@@ -238,6 +304,9 @@ type forestRec struct {
 	Per    []int         `json:"per"`
 	Probes []forestProbe `json:"probes"`
 	Panic  string        `json:"panic"`
+	// model3d only: SelfIntersections of the nested shells / with a shifted copy of a root shell added
+	SelfInt  int `json:"selfint"`
+	SelfIntX int `json:"selfintx"`
 }
 
 type box3 struct{ lo, hi [3]float64 }
@@ -349,6 +418,22 @@ func forestRun(id int, parent []int, rng *rand.Rand) forestRec {
 			}
 			for _, c := range h.Children {
 				walk(c, v)
+			}
+		}
+		// SelfIntersections: disjoint nested shells are an "ideal mesh"; a copy of the first root shell shifted by
+		// 3/8 .. 1/2 of its size along every axis passes through that shell's surface
+		rec.SelfInt = mesh.SelfIntersections()
+		rec.SelfIntX = -1
+		for v := 1; v <= len(parent); v++ {
+			if parent[v-1] == 0 {
+				b := boxes[v]
+				sz := model3d.XYZ(b.hi[0]-b.lo[0], b.hi[1]-b.lo[1], b.hi[2]-b.lo[2])
+				sh := sz.Mul(model3d.XYZ(0.5, 0.4375, 0.375))
+				crossed := mesh.Copy()
+				lo := model3d.XYZ(b.lo[0], b.lo[1], b.lo[2]).Add(sh)
+				crossed.AddMesh(model3d.NewMeshRect(lo, lo.Add(sz)))
+				rec.SelfIntX = crossed.SelfIntersections()
+				break
 			}
 		}
 		// FullMesh must leave the hierarchy as it is: it is taken (twice) BEFORE the nodes are inspected
@@ -512,6 +597,17 @@ func init() {
 					id++
 					out.write(forest2Run(id, parent, rand.New(rand.NewSource(int64(1000+n)))))
 				}
+			case "voxels":
+				var cells []int
+				if err := json.Unmarshal(line, &cells); err != nil {
+					fatal("bad case: %v", err)
+				}
+				id++
+				r := dcRepairRun(id, cells)
+				if r.Sing0 > 0 || r.Needs0 {
+					stats["nonmanifold-before-repair"]++
+				}
+				out.write(r)
 			case "flip":
 				var flipped []int
 				if err := json.Unmarshal(line, &flipped); err != nil {
